@@ -1,6 +1,6 @@
 import Driver.Util
 import Driver.C04
-import HC.Props.C01
+import HC.Proto.H2Deliver
 /-! Driver endpoint of the HTTP/2 composition of C01 (`HC.Proto.H2Deliver`, theorem `HC.Props.C01.h2_request_delivered`).
 
 `h2deliver.run` {ka_max, ids:[stream ids], ops:[…]} – the run of the receive side *with contents*.  `ops` are the ops of
